@@ -131,7 +131,9 @@ void EpollLoop::unrefFdSharedData(int fd)
         --fd_shared_data->ref;
         if (fd_shared_data->ref == 0) {
             fd_data_map_.erase(fd);
-            fd_shared_data_pool_.free(fd_shared_data);
+            //! 本轮事件分发可能仍引用着该对象（如正在遍历它的 fd_events，或 epoll_wait() 已返回了指向它的就绪项），
+            //! 所以要延后释放，期间它的 fd_events 为空，不会再产生回调
+            run([this, fd_shared_data] { fd_shared_data_pool_.free(fd_shared_data); }, __func__);
         }
     }
 }
